@@ -97,6 +97,9 @@ def type_of(interp, v):
     if isinstance(v, Obj):
         return v.cls
     tag = v.tag
+    if tag == 'err':
+        for m, c in interp.model.find_class('XLError'):
+            return ClassV(m, c)
     if tag in TAG_EXACT:
         return TypeV(TAG_EXACT[tag])
     if isinstance(v, Top):
@@ -416,6 +419,12 @@ def arith(interp, name, a, b):
                 if interp.decide('%r == 0' % (b,), [False, True]):
                     raise Raised(Exc('ZeroDivisionError'))
         tag = 'float' if (name == 'truediv' or 'float' in (a.tag, b.tag)) else ('complex' if 'complex' in (a.tag, b.tag) else 'int')
+        if 'complex' in (a.tag, b.tag):
+            tag = 'complex'
+        if name == 'pow' and tag == 'float' and b.tag == 'float' and not isinstance(a, Const) and getattr(interp, 'pow_complex_forks', False):
+            # python 3: a negative base with a non-integral exponent gives a complex number, not an exception
+            if interp.decide('%r ** %r is complex (negative base, fractional exponent)' % (a, b), [False, True]):
+                return Atom(name, [a, b], 'complex')
         return Atom(name, [a, b], tag)
     if ka in ('datetime',) and kb in ('datetime',) and name == 'sub':
         return Atom('timedelta', [a, b], 'timedelta')
@@ -495,6 +504,26 @@ def iter_items(interp, v):
     return items
 
 
+def min_len(v):
+    """A lower bound on the length of a text value: hex()/bin()/oct() give a two-character prefix and at least one digit."""
+    if isinstance(v, Const) and isinstance(v.value, str):
+        return len(v.value)
+    if isinstance(v, Atom):
+        if v.op in ('hex', 'bin', 'oct') and len(v.args) == 1:
+            return 3 + (1 if False else 0)
+        if v.op == 'slice' and len(v.args) == 4:
+            base, lo, hi, st = v.args
+            none = lambda x: x is None or (isinstance(x, Const) and x.value is None)
+            if none(hi) and none(st) and isinstance(lo, Const) and isinstance(lo.value, int) and lo.value >= 0:
+                return max(0, min_len(base) - lo.value)
+            return 0
+        if v.op in ('upper', 'lower', 'swapcase') and v.args:
+            return min_len(v.args[0])
+        if v.op == 'concat':
+            return sum(min_len(a) for a in v.args)
+    return 0
+
+
 def index_value(interp, base, idx):
     if isinstance(idx, Aff):
         interp.state.events.append(('subscript', base, idx, list(interp.state.notes)))
@@ -564,6 +593,9 @@ def index_value(interp, base, idx):
         except IndexError:
             raise Raised(Exc('IndexError'))
     if base.tag in ('str',):
+        ml = min_len(base)
+        if isinstance(idx, Const) and isinstance(idx.value, int) and not isinstance(idx.value, bool) and -ml <= idx.value < ml:
+            return Atom('char', [base, idx], 'str')     # inside the part of the text that is known to exist
         if interp.decide('index %r within %r' % (idx, base), [True, False]):
             return Atom('char', [base, idx], 'str')
         raise Raised(Exc('IndexError'))
@@ -620,7 +652,12 @@ def value_attr(interp, base, attr):
         return Atom(attr, [base], 'float')
     if tag == 'err' and attr == 'args' and isinstance(base, Err) and base.message is not None:
         return ListV([Const(base.message)], 'tuple')
-    if tag == 'err' and attr in ('args', 'message'):
+    if attr == '__class__':
+        return type_of(interp, base)
+    if tag == 'err' and attr == 'args':
+        # an error value stands for one of the module-level singletons, each built from exactly one message
+        return ListV([Atom('message', [base], 'str')], 'tuple')
+    if tag == 'err' and attr in ('message',):
         return Top('exception attribute', ignorance=False)
     if isinstance(base, Exc):
         return Top('exception attribute', ignorance=False)
@@ -684,6 +721,8 @@ def call_type(interp, name, args, kwargs):
             return Atom(name, [a], name)
         if a.tag == 'str':
             if interp.decide('%s(%r) parses' % (name, a), [True, False]):
+                if name == 'int' and len(args) == 2 and getattr(interp, 'radix_parse_symbol', None):
+                    return Aff(1, 0, 'int', interp.radix_parse_symbol)      # the parsed integer as a symbolic variable
                 return Atom(name, [a] + list(args[1:]), name)
             raise Raised(Exc('ValueError', 'invalid literal'))
         if a.tag is None:
@@ -963,7 +1002,7 @@ def call_builtin(interp, name, args, kwargs):
     if name.startswith('math.'):
         fn = name.split('.', 1)[1]
         for a in args:
-            if a.tag is not None and a.tag not in NUMERIC:
+            if a.tag is not None and (a.tag not in NUMERIC or a.tag == 'complex'):
                 raise Raised(Exc('TypeError', 'must be real number, not %s' % a.tag))
         if fn in ('pi', 'e', 'inf', 'nan'):
             return Atom(fn, [], 'float')
@@ -1058,6 +1097,8 @@ STR_TO_INT = set(['find', 'rfind', 'count'])
 
 
 def call_method(interp, base, attr, args, kwargs, text=''):
+    if attr == '__class__':
+        return interp.call(type_of(interp, base), args, kwargs)      # x.__class__(...) builds a new object of x's class
     if isinstance(base, ListV):
         return list_method(interp, base, attr, args, kwargs)
     if isinstance(base, DictV):
